@@ -24,6 +24,7 @@ mod trace_soups;
 mod trace_threads;
 mod util;
 mod val;
+mod views;
 
 use serde_json::Value as J;
 
@@ -51,6 +52,12 @@ pub fn dispatch(rec: &J) -> Outcome {
     }
     if kind == "mathcase" || kind == "bigcheck" {
         return Outcome::ok(true); // evaluated by the trace stage (binding B)
+    }
+    match kind {
+        "views" => return views::run_views(rec),
+        "structview" => return views::run_struct(rec),
+        "serdeint" => return views::run_serdeint(rec),
+        _ => {}
     }
     if kind == "parse" {
         return parse::run(rec);
